@@ -328,6 +328,10 @@ def check(pid, conf, tier, seed, workdir, replay, t0):
     gen_ok, gen_log = regen()
     if not gen_ok:
         notes.append("translator failed: " + gen_log[-1500:])
+    elif "translator" in gen_log and "failed" in gen_log:
+        # a failed translator leaves a generated file that does not type-check: the properties that depend on it (and only
+        # they) lose their proofs and their judge below
+        notes.append("a model fragment could not be regenerated from the source (properties that do not depend on it are unaffected): " + gen_log[-1500:])
 
     # -- theorems
     proof_ok, coq_log, n_print, closed, axioms = build_props(pid, conf.get("coq_timeout", 1500), conf.get("judge"))
@@ -385,6 +389,41 @@ def check(pid, conf, tier, seed, workdir, replay, t0):
     else:
         corr_broken = True
         cases = {}
+
+    # -- the source differs from the tree the checks were last committed on: explore more widely before answering.  This only
+    #    decides how much is explored (further seeds of the same generators), never the verdict.
+    widened = []
+    if judged and not oracle_fail and not corr_broken and proof_ok and not replay and tier == "quick" and h_ok:
+        try:
+            import fingerprint
+            changed = fingerprint.differs(pid, REPO, conf.get("sources", ()))
+        except Exception as exc:  # the fingerprint is an optimisation: never let it decide anything
+            changed = False
+            notes.append("source fingerprint not available: %r" % (exc,))
+        if changed:
+            budget = conf.get("widen_budget", 300)
+            for s2 in conf.get("widen_seeds", [seed + 100, seed + 200]):
+                if time.time() - t0 > budget:
+                    break
+                log("[%s] the source differs from the committed baseline: exploring seed=%s as well" % (pid, s2))
+                r2 = explore(pid, conf, binpath, s2, tier, workdir, extra_env=extra_env)
+                if "error" in r2:
+                    notes.append("widened exploration seed %s: %s" % (s2, r2["error"][:300]))
+                    continue
+                widened.append({"seed": s2, "cases": r2["meta"].get("evaluations", len(r2["cases"]))})
+                fails2 = [i for i in r2["bad_oracle"] if not (r2["cases"][i].get("known") in known)]
+                if fails2 or r2["bad_corr"] or r2["judge_errors"]:
+                    # continue with this exploration as the one to report from
+                    res, cases = r2, r2["cases"]
+                    oracle_fail = fails2
+                    known_hits = {}
+                    for i in r2["bad_oracle"]:
+                        k = cases[i].get("known")
+                        if k and k in known:
+                            known_hits.setdefault(k, []).append(i)
+                    if r2["bad_corr"] or r2["judge_errors"]:
+                        corr_broken = True
+                    break
 
     for k, idxs in sorted(known_hits.items()):
         known_lines.append("KNOWN-FINDING: property=%s %s: %s (%d cases this run, e.g. %s)" % (
@@ -476,6 +515,7 @@ def check(pid, conf, tier, seed, workdir, replay, t0):
         "traces_validated_against_impl": meta.get("evaluations", 0) if judged else 0,
         "exhaustive": bool(meta.get("exhaustive", False)),
         "notes": notes,
+        "widened_exploration_because_source_changed": widened,
     }
     for k, v in meta.items():
         if k.startswith("x_"):
